@@ -180,6 +180,10 @@ STRUCTURED.append(('override / command-line value that contains a ${SECTION:KEY}
                    _P + '[Pair]\nO-O : >0 as.buck 1000.0 0.3 32.0 >=1.5 as.zero\nU-O : >0 as.lj 0.2 2.5 >=1.5 as.buck 5.0 0.3 0.0\n',
                    [['Pair', 'O-O', '>0 as.buck 1000.0 ${Variables:rho} 32.0 >=${Variables:r_cut} as.zero'],
                     ['Pair', 'U-O', '>0 as.lj 0.2 2.5 >=${Variables:r_cut} as.buck 5.0 ${Variables:rho} 0.0']]))
+STRUCTURED.append(('a variable defined through another placeholder, used twice in one entry',
+                   '[Variables]\nzGd : ${Species:Gd.atomic_number}\nrho : 0.3\nrho_OO : ${rho}\nA1 : 1000.0\nA2 : 1000.0\n\n[Species]\nGd.atomic_number : 64\n\n' + _P +
+                   '[Pair]\nGd-Gd : as.zbl ${zGd} ${zGd}\nO-O : sum(as.buck ${A1} ${rho_OO} 0.0, as.buck ${A2} ${rho_OO} 32.0)\nGd-O : as.buck ${A1} ${rho} ${zGd}\n',
+                   '[Species]\nGd.atomic_number : 64\n\n' + _P + '[Pair]\nGd-Gd : as.zbl 64 64\nO-O : sum(as.buck 1000.0 0.3 0.0, as.buck 1000.0 0.3 32.0)\nGd-O : as.buck 1000.0 0.3 64\n', []))
 _E = '[Tabulation]\ntarget : setfl\nnr : 4\ndr : 0.5\nnrho : 4\ndrho : %s\n\n[EAM-Embed]\nAl : >=0 as.polynomial 0.1 -1.0 0.01\nCu : %s\n\n[EAM-Density]\nAl : >=0 as.exp_spline 1.1 -1.1 0.03 0 0 0 0.1\nCu : >=0 as.exp_spline 0.9 -1.0 0.02 0 0 0 0.05\n\n[Pair]\nCu-Al : >=0 as.morse 1.3 3.0 0.35\n'
 STRUCTURED.append(('same-section references in [Tabulation] (drho : ${dr}) and [EAM-Embed] (Cu : ${Al})',
                    _E % ('${dr}', '${Al}'), _E % ('0.5', '>=0 as.polynomial 0.1 -1.0 0.01'), []))
